@@ -158,7 +158,9 @@ def rnd_num(rng: random.Random, kind: str, used: set) -> str:
             t = str(v)
         else:
             v = round(rng.uniform(0.011, 0.97) * rng.choice([1, 1, 1, 10, -1, 100]), rng.choice([2, 3, 4, 5]))
-            t = rng.choice(['{}', '{:.5f}', '{:.4f}']).format(v)
+            t = rng.choice(['{}', '{:.5f}', '{:.4f}', '{}', '{:.5f}', '{:.4f}', '{:.3e}', '{:.2E}']).format(v)
+            if rng.random() < 0.04:
+                t = rng.choice(['0.00001', '0.000123', '12345.678', '1e-4'])
             v = float(t)
         if v not in _DEFAULTS and v not in used and v != 0:
             used.add(v)
@@ -204,6 +206,24 @@ def instruction_forms(rng: random.Random, names: List[str]) -> list:
     out.append(('HOPE', 'bare', 'HOPE'))
     out.append(('SADI', 'bare', 'SADI'))
     out.append(('TEMP', 'esd', 'TEMP -173.15'))
+    return out
+
+
+def long_instructions(rng: random.Random, n: int) -> list:
+    """atom-list instructions whose text is 60..260 characters long: around the column where the writer has to wrap
+    (79/80) and beyond two physical lines"""
+    out = []
+    for _ in range(n):
+        kw = rng.choice(['SADI', 'SIMU', 'DELU', 'RIGU', 'FLAT', 'EADP', 'EXYZ', 'SAME', 'ISOR', 'OMIT', 'BOND', 'CONF',
+                         'MPLA 4', 'DFIX 1.54', 'DANG 2.51', 'RTAB Ring', 'HFIX 43', 'BLOC 1 2', 'CHIV'])
+        target = rng.choice([rng.randint(60, 100), rng.randint(72, 84), rng.randint(150, 260)])
+        toks = [kw]
+        ln = kw
+        while len(ln) < target or (len(toks) - 1) % 2:
+            t = rng.choice(['C', 'N', 'O', 'Cl', 'Fe']) + str(rng.randint(1, 99)) + rng.choice(['', '', 'A', "'", '_2', '_12'])
+            toks.append(t)
+            ln = ' '.join(toks)
+        out.append((kw.split()[0], 'long', ln))
     return out
 
 
